@@ -17,7 +17,7 @@
    PrinzLik.v, PrinzStop.v).
    Theorems over R depend on the standard library's axioms of the reals (printed below). *)
 From Coq Require Import List ZArith QArith Qabs Reals.
-From EV Require Import Prinz PrinzGen PrinzProofs PrinzSweep PrinzCert PrinzFixed PrinzMax PrinzLik.
+From EV Require Import Prinz PrinzGen PrinzProofs PrinzSweep PrinzCert PrinzFixed PrinzMax PrinzLik PrinzStop.
 Import ListNotations.
 Open Scope R_scope.
 
@@ -409,3 +409,63 @@ Example c12_example_a_eq_0 :
   sweep_unchanged 2 C Crs s.
 Proof. exact a0_example. Qed.
 Print Assumptions c12_example_a_eq_0.
+
+(* ---- the stopping rule (clause "terminates with a model or a convergence warning").
+        py_diag_logl / py_offdiag_logl / py_continue (and their pyx_ twins) are GENERATED from the `logl +=` terms and
+        the test `abs(logl - oldlogl) > tol` of both sources; prinz_loop / prinz_run_stop (Model/Prinz.v)
+        are the loop `for n_iter in range(max_iter)` with `break`, and the warning condition
+        `n_iter == max_iter - 1`.  In any number type and whatever logl and the test compute: *)
+
+(* the loop ends in the state after m plain sweeps, m <= fuel, m = fuel unless left by `break`, m >= 1 *)
+Theorem c12_loop_runs_sweeps : forall (K : Type) (o : Ops K) dg od dgl odl cont C Crs n tol fuel done s old,
+  let r := prinz_loop o dg od dgl odl cont C Crs n tol fuel done s old in
+  exists m, (m <= fuel)%nat /\ snd (fst r) = (done + m)%nat /\
+            fst (fst r) = Nat.iter m (sweep dg od C Crs n) s /\
+            (snd r = false -> m = fuel) /\ (1 <= fuel -> 1 <= m)%nat.
+Proof. exact (@prinz_loop_spec). Qed.
+Print Assumptions c12_loop_runs_sweeps.
+
+(* the function returns the model after k sweeps, 1 <= k <= max_iter, and warns iff k = max_iter
+   (also when the `break` happened in the last allowed pass) *)
+Theorem c12_run_stop_spec : forall (K : Type) (o : Ops K) dg od dgl odl cont (C : nat -> nat -> K) n tol max_iter r k w,
+  (1 <= max_iter)%nat ->
+  prinz_run_stop o dg od dgl odl cont n C tol max_iter = Some (r, k, w) ->
+  (1 <= k <= max_iter)%nat /\ w = Nat.eqb k max_iter /\
+  prinz_run o (sweep dg od) n C k = Some r.
+Proof. exact (@run_stop_spec). Qed.
+Print Assumptions c12_run_stop_spec.
+
+(* a warned run is the run of exactly max_iter sweeps: the rule by which the harness compares the real
+   functions with `prinz_run` sweep by sweep *)
+Theorem c12_warned_run_is_k_sweeps : forall (K : Type) (o : Ops K) dg od dgl odl cont n C tol max_iter r k,
+  (1 <= max_iter)%nat ->
+  prinz_run_stop o dg od dgl odl cont n C tol max_iter = Some (r, k, true) ->
+  k = max_iter /\ prinz_run o (sweep dg od) n C max_iter = Some r.
+Proof. exact (@warned_run_is_k_sweeps). Qed.
+Print Assumptions c12_warned_run_is_k_sweeps.
+
+(* the guards reject the same inputs with and without the stopping rule *)
+Theorem c12_run_stop_rejects_iff : forall (K : Type) (o : Ops K) dg od dgl odl cont n C tol max_iter k,
+  prinz_run_stop o dg od dgl odl cont n C tol max_iter = None <-> prinz_run o (sweep dg od) n C k = None.
+Proof. exact (@run_stop_rejects_iff). Qed.
+Print Assumptions c12_run_stop_rejects_iff.
+
+(* over R, generated bodies: wherever the loop stops, X is symmetric, >= 0 and the running row sums are exact *)
+Theorem c12_stopped_state_invariant : forall (lo : LOps R) n C Crs tol fuel, CInv n C Crs ->
+  let r := prinz_loop ROps (py_diag ROps) (py_offdiag ROps) (py_diag_logl ROps lo) (py_offdiag_logl ROps lo)
+             (py_continue ROps lo) C Crs n tol fuel 0 (init_state ROps n C) 0 in
+  Inv n (fst (fst r)) /\ (snd (fst r) <= fuel)%nat.
+Proof. exact stopped_state_invariant. Qed.
+Print Assumptions c12_stopped_state_invariant.
+
+(* the executable instance with the stopping rule on [[5,2,1],[1,4,0],[2,1,6]], tol = 1e-10: the pure-Python
+   body stops after 28 sweeps, the compiled one (log10 instead of ln) after 27 -- as the real functions do *)
+Example c12_example_stop :
+  let C := mat_fun [[5; 2; 1]; [1; 4; 0]; [2; 1; 6]]%Q in
+  let cnt (r : option ((list (list Q) * list Q) * nat * bool)) :=
+    match r with Some (_, k, w) => Some (k, w) | None => None end in
+  cnt (py_run_stop (QOps 48) (QLOps 48) 3 C (1 # 10000000000) 100) = Some (28%nat, false) /\
+  cnt (pyx_run_stop (QOps 48) (QLOps 48) 3 C (1 # 10000000000) 100) = Some (27%nat, false) /\
+  cnt (py_run_stop (QOps 48) (QLOps 48) 3 C (1 # 10000000000) 28) = Some (28%nat, true).
+Proof. vm_compute. repeat split. Qed.
+Print Assumptions c12_example_stop.
